@@ -15,6 +15,16 @@ def run(tier, seed, only):
     rc = C07.run_split("C08", tier, seed, only, cfgs, META, "C08-O1")
     # O3: UPGMA on an all-equal matrix gives a full binary tree over all leaves
     insts = [upgma_inst(3, n, "O3", "upgma_equal") for n in ((3, 4) if tier == "quick" else (2, 3, 4, 5, 6))]
+    from vk.core import Inst
+    # no verdict within 600 s at 4 samples x 2 anchors (float division + sqrtf): thorough-tier attempts only
+    for ns, na, seed in ([] if tier == "quick" else [(4, 2, 0), (4, 2, 3), (5, 2, 1), (6, 2, 2), (5, 3, 0), (7, 2, 3)]):
+        insts.append(Inst(ob="O2", name="split2_n%d_a%d_s%d" % (ns, na, seed), harness="c08_split2.c", defs={"VK_NS": ns, "VK_NA": na, "VK_SEED": seed, "NOHAVE_AVX2": None},
+                          srcs=["lib/src/euclidean_dist.c"], models=["models/vin.c", "models/msg.c", "models/stopwatch_stub.c"],
+                          native_srcs=["lib/src/tldevel.c", "lib/src/task.c", "lib/src/sequence_distance.c", "lib/src/bpm.c", "lib/src/pick_anchor.c", "lib/src/esl_stopwatch.c", "lib/src/tlrng.c"],
+                          unwind=10, unwind_pat=[("split2", r"stop < 500", 4)], nf=na, timeout=600 if tier == "quick" else 3600, mem_gb=10, solver="kissat",
+                          funcs=["split2", "edist_serial", "cmp_floats", "alloc_kmeans_result"], cost=ns * 100,
+                          bound="%d indistinguishable samples, %d anchors, seed %d; common distance vector symbolic; refinement loop proved to stop within 3 rounds" % (ns, na, seed),
+                          desc="k-means split of indistinguishable sequences yields two non-empty halves"))
     import json
     ev_path = os.path.join(core.EVIDENCE, "C08.json")
     ev1 = json.load(open(ev_path))
